@@ -85,6 +85,28 @@ theorem dictGet_perm {ν} {d₁ d₂ : List (Nat × ν)} (hp : d₁.Perm d₂)
   rw [dictOfList_nodup _ hn, dictOfList_nodup _ hn₂]
   exact lookup_perm hp hn k
 
+/-! ### `collect` keeps the requested order -/
+
+theorem collect_map_fst {ν} (order : List Nat) (f : Nat → Option ν) (r : List (Nat × ν))
+    (h : collect (order.map (fun c => (f c).map (fun v => (c, v)))) = some r) :
+    r.map (·.1) = order := by
+  induction order generalizing r with
+  | nil =>
+    simp only [List.map_nil, collect, Option.some.injEq] at h
+    subst h; rfl
+  | cons c cs ih =>
+    simp only [List.map_cons] at h
+    cases hf : f c with
+    | none => simp [hf, collect] at h
+    | some v =>
+      simp only [hf, Option.map_some, collect] at h
+      cases hc : collect (cs.map (fun c => (f c).map (fun v => (c, v)))) with
+      | none => simp [hc] at h
+      | some r' =>
+        simp only [hc, Option.map_some, Option.some.injEq] at h
+        subst h
+        simp [ih r' hc]
+
 /-! ### sorting keys -/
 
 theorem insertKey_perm (k : Nat) (l : List Nat) : (insertKey k l).Perm (k :: l) := by
